@@ -51,7 +51,7 @@ def check_C12(run):
         res, _, _ = stage_groups(run, cases, json=True)
         stage_judge_trees(run, res, "C12", cases)
         cases, g = stage_gen_trees(run, kinds, 3, ws=0, sample=1500, muts=1, name="gen_deep")
-        res, _, _ = stage_groups(run, cases, json=True, name="parse_deep")
+        res, _, _ = stage_groups(run, cases, json=True, prints=True, name="parse_deep")
         stage_judge_trees(run, res, "C12", cases, name="judge_deep")
         res, _, tot, _ = stage_enum(run, 4, FULL_ALPHABET, json=True)
         stage_judge_enum(run, res, "C12")
@@ -63,7 +63,7 @@ def check_C12(run):
         stage_judge_trees(run, res, "C12", cases)
         for depth, n in [(3, 20000), (5, 8000)]:
             cases, g = stage_gen_trees(run, kinds, depth, ws=0, sample=n, muts=1, name="gen_deep%d" % depth)
-            res, _, _ = stage_groups(run, cases, json=True, name="parse_deep%d" % depth)
+            res, _, _ = stage_groups(run, cases, json=True, prints=True, name="parse_deep%d" % depth)
             stage_judge_trees(run, res, "C12", cases, name="judge_deep%d" % depth)
         res, _, tot, _ = stage_enum(run, 5, FULL_ALPHABET, json=True)
         stage_judge_enum(run, res, "C12")
@@ -116,7 +116,7 @@ def check_C13(run):
     docs = os.path.join(d, "docs.ndjson")
     # encodings of real parsed queries as further seeds for the byte-level mutations
     cases, gg = stage_gen_trees(run, checks_parser.DEEP_KINDS, 2 if run.tier == "quick" else 3, ws=0, sample=1500 if run.tier == "quick" else 20000)
-    res, _, _ = stage_groups(run, cases, json=True)
+    res, _, _ = stage_groups(run, cases, json=True, prints=True)
     n = 0
     with open(docs, "a") as f:
         for line in open(res):
